@@ -271,6 +271,8 @@ func errHandled(fn *ssa.Function, call *ssa.Call, E ssa.Value) (bool, ssa.Instru
 	return true, nil, ""
 }
 
+var errChkSeen = map[*ssa.Function]bool{}
+
 func ruleErrChk(c *Ctx, r *RuleResult, fnName, sinkParam string) {
 	fn := c.Fn(fnName)
 	var sink ssa.Value
@@ -473,6 +475,17 @@ func ruleErrChk(c *Ctx, r *RuleResult, fnName, sinkParam string) {
 			}
 			n++
 			r.inst("%s: %s %s", fnName, kind, desc)
+			// a module helper that is handed the output itself is held to the same rule
+			if cal := call.Call.StaticCallee(); cal != nil && c.inModule(cal) && cal.Blocks != nil && kind == "direct" && !errChkSeen[cal] {
+				errChkSeen[cal] = true
+				if nres := cal.Signature.Results().Len(); nres > 0 && types.Identical(cal.Signature.Results().At(nres-1).Type(), errType) {
+					for k, a := range call.Call.Args {
+						if stripIface(a) == sink && k < len(cal.Params) {
+							ruleErrChk(c, r, c.short(cal), cal.Params[k].Name())
+						}
+					}
+				}
+			}
 			E, has, used := errorResult(call)
 			if !has {
 				r.note("%s: %s has no error result", fnName, desc)
